@@ -1,14 +1,17 @@
 _D = 'AITB.Sampling.'
 SPEC = {
     'id': 'C08',
-    'lean_modules': ['AITB.Props.C08Dense', 'AITB.Props.C08Project', 'AITB.Props.C08'],
+    'lean_modules': ['AITB.Props.C08Dense', 'AITB.Props.C08Project', 'AITB.Props.C08Vose', 'AITB.Props.C08'],
     'theorems': [_D + t for t in [
         # dense inverse-CDF scan (sampleProbability, dense template)
         'dense_in_range', 'dense_preimage', 'dense_interval_length', 'dense_preimage_sum_one',
         'dense_zero_only_slack', 'dense_slack_last',
+        'dense_preimage_unit', 'dense_preimage_length_valid', 'dense_preimage_length_exact',
         # sparse row scan: partial totality, walk-off characterisation, refutation of totality, repaired scan
         'sparse_scan_char', 'sparse_total_partial', 'sparse_walks_off', 'sparse_total_counterexample',
         'sparseFixed_in_support', 'sparseFixed_char', 'sparseFixed_agrees',
+        # the sparse scan equals the dense scan of the row's dense expansion (ties sparse model objects to sampleDense)
+        'sparse_eq_dense_expansion', 'expandRow_sum', 'expandRow_getD',
         # model sampling compositions
         'sampleSR_spec', 'sampleSR_follows_row', 'sampleSOR_spec', 'sampleFactored_in_range',
         # projectToProbability: repaired version at full strength, current version partial + refuted
@@ -21,6 +24,10 @@ SPEC = {
         'alias_preimage', 'alias_in_range', 'aliasSample_in_range', 'alias_table_sound', 'alias_table_sound_exact',
         'vose_current_example_uniform', 'vose_current_example_reprocessed', 'vose_correct_counterexample',
         'vose_correct_counterexample_below_avg',
+        # the constructor as it is never produces an out-of-range alias (partial); any in-range table has total mass one
+        'vose_current_lengths', 'vose_current_alias_in_range', 'aliasMass_total',
+        # the repaired constructor: full-strength correctness for every valid distribution of every length
+        'vose_correct', 'vose_correct_tableOk', 'vose_fixed_lengths', 'vose_fixed_alias_in_range', 'vose_correct_isProb_in_range',
     ]],
     'harness': 'harness/c08.cpp',
     'level': 'proof',
